@@ -42,6 +42,13 @@ def gen_hist(r, maxlen):
             kk = r.choice([0, 0, 1, 2, 5])
             ops.append("p:%s:%s:%s:%d" % (r.choice("lB"), preset, "g" if good else "b", kk))
             counter += kk + (1 if preset == "-" else 0)
+        elif k < 0.84 and n <= 100:
+            # a send that is not completed: refused at zero bytes and dropped / given up after a partial write / I/O error
+            preset = "-" if r.random() < 0.6 else str(r.choice([1, 1, 7, U32 - 1, counter, max(1, counter - 1), r.randrange(1, U32)]))
+            kind = r.choice(["z", "f", "f", "q"] if n <= 50 else ["z", "f", "f"])
+            ops.append("%s:%s:%s" % (kind, r.choice("lB"), preset) + (":" + r.choice("cW") if kind == "f" else ""))
+            if preset == "-":
+                counter += 1
         elif k < 0.90:
             p = r.choice([1, 2, U32 - 1, U32 - 2, 0x80000000, 0x01020304, counter, counter + 1, max(1, counter - 1),
                           r.randrange(1, U32), r.randrange(1, 300)])
@@ -51,7 +58,43 @@ def gen_hist(r, maxlen):
             ops.append("s:%s:%s:b:%s" % (r.choice("lB"), preset, r.choice("cW")))
             if preset == "-":
                 counter += 1
+    if n >= 3 and r.random() < 0.1:
+        # the peer goes away somewhere in the second half; afterwards only allocations, sends (which fail) and bad descriptors
+        at = r.randrange(n // 2, n)
+        tail = [o for o in ops[at:] if o == "a" or o.startswith("s:") or o.startswith("f:")]
+        ops = ops[:at] + ["g"] + tail
     return "hist " + " ".join(ops)
+
+
+def gen_boundary_hist(r):
+    """histories that reach the end of the serial space and go on with sends"""
+    left = r.choice([1, 2, 3, 5])
+    ops = ["x%d" % (U32 - 2 - left)]
+    for _ in range(left + r.choice([1, 2])):
+        k = r.random()
+        if k < 0.2:
+            ops.append("a")
+        elif k < 0.6:
+            ops.append("s:%s:-:g:%s" % (r.choice("lB"), r.choice("cW")))
+        elif k < 0.75:
+            ops.append("s:%s:%d:g:%s" % (r.choice("lB"), r.choice([1, U32 - 1, U32 - 2]), r.choice("cW")))
+        elif k < 0.9:
+            ops.append("f:%s:-:%s" % (r.choice("lB"), r.choice("cW")))
+        else:
+            ops.append("z:%s:-" % r.choice("lB"))
+    # operations the unchanged code never reaches (it panics when the serials are used up); code that goes on
+    # instead shows here what it hands out
+    ops += ["s:%s:-:g:c" % r.choice("lB"), "s:%s:-:g:%s" % (r.choice("lB"), r.choice("cW")), "a"]
+    return "hist " + " ".join(ops)
+
+
+def gen_rhist(r):
+    n = r.choice([2, 5, 10, 30])
+    ops = []
+    for _ in range(n):
+        k = r.random()
+        ops.append("a" if k < 0.4 else "s:%s:%s:%s:c" % (r.choice("lB"), "-" if k < 0.8 else str(r.randrange(1, U32)), "g" if r.random() < 0.9 else "b"))
+    return "rhist " + " ".join(ops)
 
 
 ELEMS = ["a", "Ab", "x_1", "org", "example", "Iface9", "_u", "Z" * 20]
@@ -113,44 +156,81 @@ def gen_reply(r):
 # ------------------------------------------------------------------ property predicate on the implementation's output
 
 def hist_predicate(line, out):
+    """the property on the implementation's own output. None: the kernel did not allow the partial / refused
+    write this history needs. The serials the connection hands out (alloc_serial, ctx.serial() / returned serial of
+    every message without a preset, completed or not) must be non-zero, < 2^32 and strictly increasing; a preset
+    serial is used as it is; reported == on the wire; a panic only when the serials are used up."""
     ops = line.split(" ")[1:]
     toks = out.split(" ")
+    if "NOPARTIAL" in toks or "NOZERO" in toks:
+        return None
     bad = []
-    if "PANIC" in toks:
-        # only legitimate when the serials are exhausted (decided by the caller for the exhaustion case)
-        return ["alloc_serial/send_message panicked"]
-    if "NOPARTIAL" in toks:
-        return None                        # the kernel took 200 kB at once: no partial write to suspend at
-    if len(toks) != len(ops):
-        return ["%d results for %d operations" % (len(toks), len(ops))]
-    last = 0
-    for o, t in zip(ops, toks):
+    st = {"last": 0, "hidden": 0}
+
+    def fresh(ser, what):
+        if not (0 < ser < U32) or ser <= st["last"]:
+            bad.append("%s %d after %d (must be non-zero, < 2^32 and greater than every serial handed out before)" % (what, ser, st["last"]))
+        st["last"] = max(st["last"], ser)
+
+    def chosen(f, ser, what):
+        """serial of a message: preset or fresh; ser None when the API does not show it"""
+        if f[2] != "-":
+            if ser is not None and ser != int(f[2]):
+                bad.append("preset serial %s was used as %d (%s)" % (f[2], ser, what))
+        elif ser is None:
+            st["hidden"] += 1
+        else:
+            fresh(ser, what)
+
+    closed = False
+    for i, o in enumerate(ops):
+        if i >= len(toks):
+            bad.append("%d results for %d operations" % (len(toks), len(ops)))
+            break
+        t = toks[i]
         f = o.split(":")
+        if t == "PANIC":
+            takes = o == "a" or o.startswith("x") or (f[0] in "spzqf" and f[2] == "-")
+            if not (takes and st["last"] + st["hidden"] >= U32 - 2) and not o.startswith("x"):
+                bad.append("alloc_serial/send_message panicked although serials are left (last handed out: %d)" % st["last"])
+            if o.startswith("x") and st["last"] + st["hidden"] + int(o[1:]) < U32 - 1:
+                bad.append("alloc_serial panicked although serials are left")
+            break
+        if o == "g":
+            closed = True
+            continue
         if o == "a":
             if not t.startswith("a:"):
                 bad.append("alloc_serial gave %s" % t)
                 continue
-            s = int(t[2:])
-            if not (0 < s < U32) or s <= last:
-                bad.append("alloc_serial returned %d after %d (must be non-zero, < 2^32 and greater than every earlier one)" % (s, last))
-            last = max(last, s)
-        else:
-            resumed = f[0] == "p"
-            if f[3] == "b":
-                if t != "e" and not (resumed and t.startswith("e:")):
-                    bad.append("a message with an invalid member name was sent: %s" % t)
-                    continue
-                if f[2] == "-":
-                    last += 0          # the burnt serial is not observable; the next fresh one must still be larger
-                for b in ([int(x) for x in t[2:].split("+")] if t.startswith("e:") else []):
-                    if not (0 < b < U32) or b <= last:
-                        bad.append("alloc_serial returned %d after %d" % (b, last))
-                    last = max(last, b)
+            fresh(int(t[2:]), "alloc_serial returned")
+        elif o.startswith("x"):
+            if not t.startswith("x:"):
+                bad.append("alloc_serial gave %s" % t)
                 continue
-            if not t.startswith(f[0] + ":"):
+            ser = int(t[2:])
+            if ser - st["last"] < int(o[1:]):
+                bad.append("%s allocations after serial %d ended at %d" % (o[1:], st["last"], ser))
+            fresh(ser, "alloc_serial returned")
+        elif f[0] in ("s", "p") and f[3] == "b":
+            if t != "e" and not (f[0] == "p" and t.startswith("e:")):
+                bad.append("a message with an invalid member name was sent: %s" % t)
+                continue
+            if f[2] == "-":
+                st["hidden"] += 1
+            for x in (t[2:].split("+") if t.startswith("e:") else []):
+                fresh(int(x), "alloc_serial returned")
+        elif f[0] == "s" and closed:
+            if not t.startswith("io:"):
+                bad.append("a send to a closed peer gave %s" % t)
+                continue
+            chosen(f, None if t == "io:-" else int(t[3:]), "ctx.serial() of a send that failed with EPIPE")
+        elif f[0] in ("s", "p"):
+            resumed = f[0] == "p"
+            parts = t.split(":")
+            if parts[0] != f[0]:
                 bad.append("sending a valid message failed (%s)" % t)
                 continue
-            parts = t.split(":")
             if resumed and (len(parts) < 5 or not parts[2].isdigit()):
                 bad.append("the resumed send did not deliver the whole message (%s)" % t)
                 continue
@@ -162,24 +242,36 @@ def hist_predicate(line, out):
                 parts = parts[:4] + parts[5:]
             if len(parts) > 4:
                 bad.append("SendMessageContext::serial() is %s but write()/write_all returned %s" % (parts[4][3:], parts[1]))
-            _, rep, wire, flag = parts[:4]
-            rep, wire = int(rep), int(wire)
+            rep, wire, flag = int(parts[1]), int(parts[2]), parts[3]
             if rep != wire:
                 bad.append("reported serial %d but the header on the wire carries %d" % (rep, wire))
             if flag != f[1]:
                 bad.append("byte order flag %s for a %s message" % (flag, f[1]))
-            if f[2] != "-":
-                if rep != int(f[2]):
-                    bad.append("preset serial %s was sent as %d" % (f[2], rep))
-            else:
-                if not (0 < rep < U32) or rep <= last:
-                    bad.append("fresh serial %d after %d (must be non-zero and greater than every earlier one)" % (rep, last))
-                last = max(last, rep)
-            for b in between:        # handed out while the send was suspended: after the message's own serial
-                if not (0 < b < U32) or b <= last:
-                    bad.append("alloc_serial returned %d after %d while a send was suspended" % (b, last))
-                last = max(last, b)
+            chosen(f, rep, "serial of a sent message")
+            for x in between:
+                fresh(x, "alloc_serial (while a send was suspended) returned")
+        elif f[0] in ("z", "q", "f"):
+            parts = t.split(":")
+            if parts[0] != f[0] or len(parts) < 2 or any(x.startswith("leak") or x.startswith("sent") or x == "droppanic" for x in parts):
+                bad.append({"z": "a send refused at zero bytes and dropped", "q": "a send given up after a partial write",
+                            "f": "a send with a closed descriptor"}[f[0]] + " gave %s" % t)
+                continue
+            ser = None if parts[1] == "-" else int(parts[1])
+            chosen(f, ser, "ctx.serial() of a send that was not completed")
+            if f[0] == "q" and len(parts) >= 4:
+                if int(parts[2]) != ser:
+                    bad.append("ctx.serial() %s but the (partial) header on the wire carries %s" % (parts[1], parts[2]))
+                if parts[3] != f[1]:
+                    bad.append("byte order flag %s for a %s message" % (parts[3], f[1]))
+        else:
+            bad.append("unknown operation %s" % o)
     return bad
+
+
+def hello_predicate(line, out):
+    kv = parse_kv(line)
+    want = "hello serial=%d result=%s" % (int(kv["pre"]) + 1, "ok" if kv["reply"] == "same" else "err")
+    return [] if out == want else ["send_hello after %s allocations with a reply carrying %s reply serial: %s (expected %s)" % (kv["pre"], kv["reply"], out, want)]
 
 
 def reply_predicate(line, out):
@@ -227,12 +319,48 @@ def parse_colon(s):
 
 
 def strip_api(line):
+    """the line as the model driver reads it: no API choice, no peer; after the peer is gone (g) every
+    send that marshals is a send that fails with an I/O error (f)"""
     toks = line.split(" ")
-    out = [toks[0]]
+    if toks[0] not in ("hist", "rhist"):
+        return line
+    out = ["hist"]
+    closed = False
     for t in toks[1:]:
         f = t.split(":")
-        out.append(":".join(f[:4]) if f[0] == "s" else t)
+        if t == "g":
+            closed = True
+        elif f[0] == "s" and closed and f[3] == "g":
+            out.append("f:%s:%s" % (f[1], f[2]))
+        elif f[0] == "s":
+            out.append(":".join(f[:4]))
+        elif f[0] == "f":
+            out.append(":".join(f[:3]))
+        else:
+            out.append(t)
     return " ".join(out)
+
+
+def normalise_impl(out):
+    """the implementation's tokens in the model's vocabulary"""
+    res = []
+    for t in out.split(" "):
+        if t == "g":
+            continue
+        res.append("f:" + t[3:] if t.startswith("io:") else t)
+    return res
+
+
+def same_as_model(out, model_obs):
+    a, b = normalise_impl(out), model_obs.split(" ")
+    if len(a) != len(b):
+        return False
+    for x, y in zip(a, b):
+        if x == "f:-" and y.startswith("f:"):
+            continue                      # send_message_write_all does not show the serial of a failed send
+        if x != y:
+            return False
+    return True
 
 
 def coq_crosscheck(ctx, lines, impl):
@@ -240,7 +368,8 @@ def coq_crosscheck(ctx, lines, impl):
     implementation did: guards the extraction and the OCaml driver"""
     import re
     cand = [(l, o) for l, (o, _) in zip(lines, impl)
-            if l.startswith("hist") and o and "PANIC" not in o and "NOPARTIAL" not in o and 3 <= len(l.split(" ")) <= 14]
+            if l.startswith("hist ") and o and "PANIC" not in o and "NOPARTIAL" not in o and 3 <= len(l.split(" ")) <= 14
+            and all(t == "a" or t[0] in "sp" for t in l.split(" ")[1:])]
     picked = [c for c in cand if " p:" in c[0]][:5] + [c for c in cand if " p:" not in c[0]][:5]
     if not picked:
         return
@@ -264,7 +393,7 @@ def coq_crosscheck(ctx, lines, impl):
          "Definition flds (m : message) : option (list N) := if msg_flags m =? 255 then None else Some [].\n"
          "Definition ws (hb : list N) : N := match wire_serial hb with Some s => s | None => 0 end.\n"
          "Definition al (b : list N) : list (N * N * N) := map (fun s => (0, s, 0)) b.\n"
-         "Definition obs (e : event) : list (N * N * N) := match e with EvAlloc s => [(0, s, 0)] | EvSent _ r hb => [(1, r, ws hb)] | EvSendErr _ b => (2, 0, 0) :: al b | EvSentResumed _ b r hb => (3, r, ws hb) :: al b end.\n"
+         "Definition obs (e : event) : list (N * N * N) := match e with EvAlloc s => [(0, s, 0)] | EvSent _ r hb => [(1, r, ws hb)] | EvSendErr _ b => (2, 0, 0) :: al b | EvSentResumed _ b r hb => (3, r, ws hb) :: al b | EvAbandoned _ r hb => [(4, r, ws hb)] end.\n"
          + "\n".join(terms) + "\n")
     out = vlib.coq_eval("c13_cross", v)
     blocks = re.split(r"^\s*= ", out, flags=re.M)[1:]
@@ -300,7 +429,15 @@ def run(ctx):
                 "colliding with the counter), and of a message that fails to marshal (it burns a serial), and of a 200 kB message that is suspended after "
                 "a real partial write (into_progress), sees 0-5 alloc_serial calls, is resumed (resume) and written to the end, the "
                 "serial returned by write() and by the resumed context compared with bytes 8..12 the peer read; little/big endian. "
-                "Plus one history that exhausts the 2^32-2 serials. replies = make_response / make_error_response / "
+                "Sends that are NOT completed keep their serial: refused at zero bytes on a socket the harness filled, context "
+                "dropped (z); force_finish after a real partial write (q); a closed attached descriptor -> EBADF through "
+                "write_all + force_finish_on_error or send_message_write_all (f); the peer shut down -> EPIPE for every "
+                "later send (g); each followed by further sends/allocations. Histories through RpcConn::alloc_serial / "
+                "RpcConn::send_message (rhist); DuplexConn::send_hello after 0-40 allocations against a peer whose reply "
+                "carries the Hello's serial, another one, or none (hello). Histories that start 1-5 serials before the end of "
+                "the serial space (x<n> = n alloc_serial calls, about 6 s each; the model driver fast-forwards with alloc_many, "
+                "theorem C13_alloc_many) and go on with sends up to and beyond the 'run out of serials' panic. "
+                "Plus one history that exhausts the 2^32-2 serials by alloc_serial alone. replies = make_response / make_error_response / "
                 "unknown_method / invalid_args on headers that were marshalled and decoded (random serial, sender, "
                 "destination, interface present or absent) and on hand-built headers (no serial, NUL bytes, invalid names); "
                 "each reply is marshalled and decoded again. A history is non-trivial when it mixes at least two kinds of "
@@ -329,6 +466,14 @@ def run(ctx):
         lines.append(gen_hist(r, 200))
     for _ in range(20000 if thorough else 2500):
         lines.append(gen_reply(r))
+    r2 = ctx.sub_rng("gen2")
+    for _ in range(400 if thorough else 60):
+        lines.append(gen_rhist(r2))
+    for pre in ([0, 1, 2, 5, 40] if not thorough else range(0, 60)):
+        for mode in ("same", "other", "none"):
+            lines.append("hello pre=%d reply=%s" % (pre, mode))
+    for _ in range(12 if thorough else 4):          # about 6 s of alloc_serial calls each, run in parallel
+        lines.append(gen_boundary_hist(r2))
     lines = list(dict.fromkeys(lines))
     # the end of the serial space (about 6 s of alloc_serial calls): the last serial is 2^32-2, the next call panics
     exhaust = "hist x%d a a" % (U32 - 3)
@@ -361,16 +506,21 @@ def run(ctx):
                 ctx.tie_broken("correspondence: serial exhaustion differs from the model (%s)" % want, out)
 
     for line, (out, err), (mo, merr) in zip(lines, impl[:-1], model):
-        is_hist = line.startswith("hist")
+        is_hist = line.startswith("hist") or line.startswith("rhist")
         if out is None:
             ctx.tie_broken("harness c13 crashed or hung", "%s\n%s" % (line[:300], err))
             continue
         if mo is None:
             ctx.tie_broken("extracted model driver c13 crashed", "%s\n%s" % (line[:300], merr))
             continue
-        if is_hist:
+        if line.startswith("hello"):
+            ctx.case(line, nontrivial=True, sample={"input": line, "impl": out} if "pre=5" in line else None)
+            ctx.count("hello:" + parse_kv(line)["reply"])
+            viol = hello_predicate(line, out)
+            differs = out != mo
+        elif is_hist:
             ops = line.split(" ")[1:]
-            kinds = {("a" if o == "a" else "r" if o.startswith("p:") else "b" if ":b:" in o else "p" if o.split(":")[2] != "-" else "s") for o in ops}
+            kinds = {("a" if o == "a" else o[0] if o[0] in "xgzqf" else "r" if o.startswith("p:") else "b" if ":b:" in o else "p" if o.split(":")[2] != "-" else "s") for o in ops}
             ctx.case(line, nontrivial=len(kinds) >= 2,
                      sample={"input": line[:150], "impl": out[:150]} if len(ops) in (5, 10) else None)
             ctx.count("hist:len<=10" if len(ops) <= 10 else "hist:len<=50" if len(ops) <= 50 else "hist:len<=200")
@@ -380,12 +530,20 @@ def run(ctx):
             ctx.count("ops:send_marshal_error", sum(1 for o in ops if ":b:" in o))
             ctx.count("ops:send_suspended_and_resumed", sum(1 for o in ops if o.startswith("p:") and ":g:" in o))
             ctx.count("ops:alloc_while_suspended", sum(int(o.split(":")[4]) for o in ops if o.startswith("p:")))
+            ctx.count("ops:send_dropped_at_zero_bytes(full socket)", sum(1 for o in ops if o.startswith("z:")))
+            ctx.count("ops:send_force_finished_after_partial_write", sum(1 for o in ops if o.startswith("q:")))
+            ctx.count("ops:send_io_error_EBADF", sum(1 for o in ops if o.startswith("f:")))
+            ctx.count("ops:send_io_error_EPIPE", sum(1 for t in out.split(" ") if t.startswith("io:")))
+            if line.startswith("rhist"):
+                ctx.count("hist:through_RpcConn")
+            if ops and ops[0].startswith("x"):
+                ctx.count("hist:near_2^32")
             viol = hist_predicate(line, out)
             if viol is None:
                 ctx.count("hist:no_partial_write_possible")
                 continue
             model_obs = mo.split(" issued=")[0]
-            differs = out != model_obs
+            differs = not same_as_model(out, model_obs)
         else:
             kind = line.split(" ")[1]
             kv = parse_kv(line)
@@ -423,12 +581,13 @@ def replay(ctx, body):
         return 2
     print("line:", line[:600])
     print("impl:", out[0][:600])
-    if line.startswith("hist x"):
+    if line.startswith("hist x") and "expected" in data:
         ok = out[0] == data.get("expected")
         print("expected:", data.get("expected"))
         print("not reproduced" if ok else "REPRODUCED: serial exhaustion does not end in a panic after 2^32-2")
         return 0 if ok else 1
-    viol = hist_predicate(line, out[0]) if line.startswith("hist") else reply_predicate(line, out[0])
+    viol = (hist_predicate(line, out[0]) if line.split(" ")[0] in ("hist", "rhist") else
+            hello_predicate(line, out[0]) if line.startswith("hello") else reply_predicate(line, out[0]))
     if viol:
         print("REPRODUCED:", "; ".join(viol[:5]))
         return 1
